@@ -374,8 +374,11 @@ def _revalidation(ctx, nz):
             func = ctx.index.find_method(cell, sub.func.attr)
             if func is None:
                 continue
-            src = ast.unparse(func.node)
-            if '.labels' in src and '.traits' in src and '.remove(' in src:
+            # over the whole routine, helpers spliced in at a condition
+            # included (their bodies hang off the call they replace)
+            attrs = set(n.attr for n in K.walk_no_nested(func.node)
+                        if isinstance(n, ast.Attribute))
+            if {'labels', 'traits', 'remove'} <= attrs:
                 cands.append((func, sub))
     if not cands:
         ctx.fail('C03.4', sched, None,
